@@ -24,7 +24,14 @@ TNAMES = ["t", "u", "tmpl name", "T:x", "w/sub"]
 PFNAMES = ["#if", "lc", "#switch", "PAGENAME", "#ifeq", "ucfirst", "#expr"]
 ATTRV = ["c1", "i-2", "a.b", "x_y~z", "A9", "0"]          # URL-safe, as the statement restricts
 ATTRN = ["class", "id", "lang", "title", "data-x"]
-LITS = ["a [[ b", "c ]] d", "[x]", "q ] r [ s", "[[", "]]", "]] [[", "x[[y", "y]]z", "[ [ p ] ]"]
+# literal bracket text: a document uses either the closing or the opening kind (plus the neutral ones), so that
+# literal [[ is never followed by ]] and no accidental, overlapping link arises; documents with literal
+# openers contain no [[links]] and keep the openers out of brace arguments (an unclosed [[ there changes how
+# the parser splits the arguments -- a parser matter)
+LITS_NEUTRAL = ["[x]", "q ] r [ s", "[ [ p ] ]"]
+LITS_CLOSE = ["c ]] d", "]]", "y]]z", "]] ]"]
+LITS_OPEN = ["a [[ b", "[[", "x[[y", "[ [[", "] [["]
+MODE = {"lit": "close"}
 MAGICS = ["__NOTOC__", "__TOC__", "__FORCETOC__", "__NOEDITSECTION__"]
 INLINE_TAGS = ["span", "b", "sup", "code", "small", "ref", "u", "s", "i", "sub", "big", "cite"]
 BLOCK_TAGS = ["div", "blockquote", "center"]
@@ -45,6 +52,10 @@ def inl(rng, d, lits=True, links=True, nb=False, ni=False):
     """One inline node.  nb / ni: already inside bold / italic (quote runs are never nested in themselves:
     '' inside '' has no defined reading)."""
     r = rng.random()
+    opening = MODE["lit"] == "open"
+    if opening:
+        links = False
+    alits = lits and not opening       # literal brackets allowed inside brace arguments
     if d <= 0 or r < 0.34:
         return ["t", rng.choice(WORDS)]
     if r < 0.42:
@@ -72,14 +83,14 @@ def inl(rng, d, lits=True, links=True, nb=False, ni=False):
         args = []
         for _ in range(rng.randint(0, 3)):
             key = rng.choice(["k", "n 1", "2", "x-y"]) if rng.random() < 0.45 else None
-            args.append([key, inls(rng, d - 1, lits, links, 2, nb, ni) if rng.random() < 0.9 else []])
+            args.append([key, inls(rng, d - 1, alits, links, 2, nb, ni) if rng.random() < 0.9 else []])
         return ["tmpl", rng.choice(TNAMES), args]
     if r < 0.85:
         name = rng.choice(PFNAMES)
         n = 0 if name == "PAGENAME" else rng.randint(1, 3)
-        return ["pf", name, [inls(rng, d - 1, lits, links, 2, nb, ni) for _ in range(n)]]
+        return ["pf", name, [inls(rng, d - 1, alits, links, 2, nb, ni) for _ in range(n)]]
     if r < 0.88:
-        return ["targ", rng.choice(["1", "x", "n 1"]), inls(rng, d - 1, lits, links, 1, nb, ni) if rng.random() < 0.5 else None]
+        return ["targ", rng.choice(["1", "x", "n 1"]), inls(rng, d - 1, alits, links, 1, nb, ni) if rng.random() < 0.5 else None]
     if r < 0.94:
         return ["html", rng.choice(INLINE_TAGS), attrs(rng), inls(rng, d - 1, lits, links, 2, nb, ni) if rng.random() < 0.9 else []]
     if r < 0.955:
@@ -89,7 +100,7 @@ def inl(rng, d, lits=True, links=True, nb=False, ni=False):
     if r < 0.975:
         return ["magic", rng.choice(MAGICS)]
     if lits:
-        return ["lit", rng.choice(LITS)]
+        return ["lit", rng.choice(LITS_NEUTRAL + (LITS_OPEN if opening else LITS_CLOSE) * 2)]
     return ["t", rng.choice(WORDS)]
 
 
@@ -152,7 +163,9 @@ def block(rng, d, bd):
 def tidy(blocks):
     """A leading-blank line is always followed by a block that ends the preformatted run (list, rule,
     heading) or by nothing: otherwise the parser keeps later lines -- and a later table with everything
-    after it -- inside the PREFORMATTED node (a parser matter, not a serialiser one).
+    after it -- inside the PREFORMATTED node (a parser matter, not a serialiser one).  It never directly
+    follows a heading either (there the parser does not see it as preformatted, but does after the empty
+    line that the heading emitter adds).
     Returns a new list when something had to be inserted (never mutates its argument)."""
     out = None
     for i, b in enumerate(blocks):
@@ -161,7 +174,8 @@ def tidy(blocks):
             inner = tidy(b[3])
             if inner is not b[3]:
                 nb = [b[0], b[1], b[2], inner]
-        need_hr = b[0] == "spre" and i + 1 < len(blocks) and blocks[i + 1][0] not in ("list", "hr", "h", "deftwo")
+        need_hr = (b[0] == "spre" and i + 1 < len(blocks) and blocks[i + 1][0] not in ("list", "hr", "h", "deftwo")) or \
+            (b[0] == "h" and i + 1 < len(blocks) and blocks[i + 1][0] == "spre")
         if (nb is not b or need_hr) and out is None:
             out = list(blocks[:i])
         if out is not None:
@@ -172,6 +186,7 @@ def tidy(blocks):
 
 
 def gen(rng: random.Random, depth=3):
+    MODE["lit"] = "open" if rng.random() < 0.2 else "close"
     doc = []
     for _ in range(rng.randint(1, 4)):
         if rng.random() < 0.6:
